@@ -51,7 +51,7 @@ TRUSTED_REASONS = {
     #     under `assumptions`, with the bounded harness that checks it, if any) ---
     'external_body: remove_indices': 'callee contract in the callers\' units (modular verification); the body is verified against the same contract in unit vec_ext',
     'external_body: vec_retain_flags': 'desugaring R9: std Vec::retain keeps, in order, exactly the elements for which the closure returned true, calling it once per element in the original order (std documentation); used by unit vec_ext only',
-    'external_body: axiom_char_slice_bytes': 'machine fact: an allocation is at most isize::MAX bytes and a char is 4 bytes, so a [char] has fewer than usize::MAX/2 elements (needed for `count * 2` in lex_tabs)',
+    'external_body: axiom_char_slice_bytes': 'machine fact: an allocation is at most isize::MAX bytes and a char is 4 bytes, so a [char] has at most usize::MAX/8 elements (needed for `count * 2` in lex_tabs, len + 1 in lex_hostname)',
     'external_body: lex_hex_number': 'String / from_str_radix; Kani-bounded',
     'external_body: lex_number': 'str::parse::<f64>; not checked by anything',
     'external_body: lex_url': 'split/tuple_windows iterator code; Kani-bounded',
